@@ -132,22 +132,15 @@ def _fun(t, i):
 
 def find_tuples(text, head):
     """All top-level tuples in `text` that start a line with <<"head", ... (PrintT lines)."""
+    import re
     out = []
-    needle = '<<"' + head + '"'
-    i = 0
-    while True:
-        i = text.find(needle, i)
-        if i < 0:
-            return out
-        if i > 0 and text[i - 1] != "\n":
-            i += 1
-            continue
+    for m in re.finditer(r'^<<\s*"' + re.escape(head) + '"', text, flags=re.M):
         try:
-            v, j = _val(text, i)
+            v, _ = _val(text, m.start())
             out.append(v)
-            i = j
         except (ParseError, IndexError):
-            i += 1
+            pass
+    return out
 
 
 def parse_dump(path):
